@@ -253,14 +253,14 @@ pub fn sample_val(k: Kind) -> BoxedStrategy<i128> {
 fn gain_val(fl: Kind) -> BoxedStrategy<i128> {
     match fl {
         Kind::F32 => prop_oneof![
-            3 => proptest::sample::select(vec![0.0f32, 1.0, -1.0, 0.5, 2.0, -0.0, 0.25, -0.5]),
+            3 => proptest::sample::select(vec![0.0f32, 1.0, -1.0, 0.5, 2.0, -0.0, 0.25, -0.5, 1e-8, -1e-8, 5.9604645e-8, 1e-20]),
             3 => -4.0f32..4.0,
             1 => -1.0f32..1.0,
         ]
         .prop_map(|x| x.to_bits() as i128)
         .boxed(),
         _ => prop_oneof![
-            3 => proptest::sample::select(vec![0.0f64, 1.0, -1.0, 0.5, 2.0, -0.0, 0.25, -0.5]),
+            3 => proptest::sample::select(vec![0.0f64, 1.0, -1.0, 0.5, 2.0, -0.0, 0.25, -0.5, 1e-8, -1e-8, 5.9604645e-8, 1e-20, 1e-300]),
             3 => -4.0f64..4.0,
             1 => -1.0f64..1.0,
         ]
@@ -856,7 +856,7 @@ fn fcase(k: Kind, n_tag: usize) -> impl Strategy<Value = FCase> {
         any::<bool>(),
         0u8..8,
     )
-        .prop_map(move |(mut chans, other, offsets, gains, offset, gain, il, short, dup)| {
+        .prop_map(move |(mut chans, mut other, offsets, gains, offset, gain, il, short, dup)| {
             // make channels pairwise distinct so a permutation is visible (integers only; the
             // amplitude grid of 8-bit formats has 256 points >= 32 channels)
             if k.is_int() {
@@ -879,6 +879,17 @@ fn fcase(k: Kind, n_tag: usize) -> impl Strategy<Value = FCase> {
                 let first = chans[0];
                 for c in chans.iter_mut() {
                     *c = first;
+                }
+            } else if dup == 2 {
+                // every other channel silent in BOTH frames (a closure is still called for it, whatever it returns)
+                let eq = match k {
+                    Kind::Int { .. } => k.eq_raw(),
+                    Kind::F32 => 0.0f32.to_bits() as i128,
+                    Kind::F64 => 0.0f64.to_bits() as i128,
+                };
+                for j in (0..chans.len()).step_by(2) {
+                    chans[j] = eq;
+                    other[j] = eq;
                 }
             }
             // frame-wide scalar operands must be valid for every channel: repair against each
